@@ -12,7 +12,7 @@ import (
 func init() {
 	register(&Check{
 		ID: "C10", Level: "exploration", QuickSecs: 150, ThoroughSecs: 1200,
-		Rule:        "class range family (every ordered pair of 9 ranges - disjoint, touching, overlapping, nested, equal - in one class, with and without i, positive and inverted, 18 one-rune inputs at the range ends); same-text family (every ordered pair of 9 terminals equal up to case or spelling - \"ab\"i \"AB\"i \"aB\"i \"ab\" 'ab' [ab]i [BA]i [\\x61] [a] - failing at one or at different offsets: expected lists name each by its own spelling); histories: one action block inside every kind of construct (operand of ! and &, repetition, failing alternative, label, both sides of a recovery operator, called rule, behind a state block, left-recursive rule) x calls {7 inputs x no fault / error / panic(error) / panic(string) x Recover on/off}, EVERY ordered pair of calls in one process on the standard and the optimized parser: the second call answers like a first call; union of families: (a) block-free bodies over the C01 alphabet up to N nodes (quick 4, thorough 5); (b) bodies with actions, code predicates (both results), state blocks and labels up to 3 nodes; (c) state-store bodies over {'a','b',#{},&{}} up to 4 nodes with all three store kinds; (d) fault scripts (error / panic(error) / panic(string) per block, <=2 faulting) under Recover(true) and Recover(false); (e) left-recursive rules (direct, with action and state, indirect) generated with -support-left-recursion. For X in the subsets of {-optimize-basic-latin, -optimize-grammar} (plus -support-left-recursion for (e)): parser(X) vs parser(X + -optimize-parser), real vs real, on all inputs over {a,b} up to L=3: same value, same complete error list (text, order, Inner identity), same escaping panic, same block log; and the optimized static code contains the state machinery iff the grammar has a #{} block. Non-trivial = the case has a code block invocation, an error, or backtracking. Plus the cross family (cross.go, bodies <= 3 nodes, X over {-optimize-basic-latin, -optimize-grammar, -support-left-recursion}, fault scripts - every block in turn returning an error / panicking -, Recover on/off, inputs with invalid bytes) and the two-recovery-operator family of C14.",
+		Rule:        "class range family (every ordered pair of 9 ranges - disjoint, touching, overlapping, nested, equal - in one class, with and without i, positive and inverted, 18 one-rune inputs at the range ends); same-text family (every ordered pair of 9 terminals equal up to case or spelling - \"ab\"i \"AB\"i \"aB\"i \"ab\" `ab` [ab]i [BA]i [\\x61] [a] - failing at one or at different offsets: expected lists name each by its own spelling); histories: one action block inside every kind of construct (operand of ! and &, repetition, failing alternative, label, both sides of a recovery operator, called rule, behind a state block, left-recursive rule) x calls {7 inputs x no fault / error / panic(error) / panic(string) x Recover on/off}, EVERY ordered pair of calls in one process on the standard and the optimized parser: the second call answers like a first call; union of families: (a) block-free bodies over the C01 alphabet up to N nodes (quick 4, thorough 5); (b) bodies with actions, code predicates (both results), state blocks and labels up to 3 nodes; (c) state-store bodies over {'a','b',#{},&{}} up to 4 nodes with all three store kinds; (d) fault scripts (error / panic(error) / panic(string) per block, <=2 faulting) under Recover(true) and Recover(false); (e) left-recursive rules (direct, with action and state, indirect) generated with -support-left-recursion. For X in the subsets of {-optimize-basic-latin, -optimize-grammar} (plus -support-left-recursion for (e)): parser(X) vs parser(X + -optimize-parser), real vs real, on all inputs over {a,b} up to L=3: same value, same complete error list (text, order, Inner identity), same escaping panic, same block log; and the optimized static code contains the state machinery iff the grammar has a #{} block. Non-trivial = the case has a code block invocation, an error, or backtracking. Plus the cross family (cross.go, bodies <= 3 nodes, X over {-optimize-basic-latin, -optimize-grammar, -support-left-recursion}, fault scripts - every block in turn returning an error / panicking -, Recover on/off, inputs with invalid bytes) and the two-recovery-operator family of C14.",
 		Assumptions: []string{"E1 loader", "both sides are the real builder + runtime; the reference is consulted only to count non-trivial cases"},
 		Run:         runC10,
 	})
@@ -64,6 +64,7 @@ func runC10(c *ShardCtx) {
 	idx := 0
 	var inputs0 = inputs
 	var diffAll func(g *peg.Grammar, xs []core.Gen, opts []rtapi.RunOpts, scripts []map[int]*rtapi.Block)
+	mustBuild := false
 	diff := func(g *peg.Grammar, xs []core.Gen, opts []rtapi.RunOpts, scripts []map[int]*rtapi.Block) {
 		idx++
 		if !c.Mine(idx) {
@@ -84,6 +85,10 @@ func runC10(c *ShardCtx) {
 			a := buildOrCount(c, text, x)
 			b := buildOrCount(c, text, y)
 			if a == nil || b == nil {
+				if a == nil && b == nil && mustBuild {
+					// (a family whose grammars are valid by construction explored nothing here)
+					panic(&core.HarnessError{Msg: "a grammar of a family that is valid by construction was rejected:\n" + text})
+				}
 				if (a == nil) != (b == nil) {
 					c.Report(Violation{Desc: "grammar accepted with one flag set and rejected with the other", Grammar: text, Gen: x.String() + " vs " + y.String()}, "")
 				}
@@ -136,7 +141,7 @@ func runC10(c *ShardCtx) {
 		src := func(e *peg.Expr, sp string) *peg.Expr { e.Src = sp; return e }
 		terms := []func() *peg.Expr{
 			func() *peg.Expr { return peg.LitI("ab") }, func() *peg.Expr { return peg.LitI("AB") }, func() *peg.Expr { return peg.LitI("aB") }, func() *peg.Expr { return peg.Lit("ab") },
-			func() *peg.Expr { return src(peg.Lit("ab"), "'ab'") }, func() *peg.Expr { return peg.Cls(false, true, "a", "b") }, func() *peg.Expr { return peg.Cls(false, true, "B", "A") },
+			func() *peg.Expr { return src(peg.Lit("ab"), "`ab`") }, func() *peg.Expr { return peg.Cls(false, true, "a", "b") }, func() *peg.Expr { return peg.Cls(false, true, "B", "A") },
 			func() *peg.Expr { return src(peg.Cls(false, false, "a"), `[\x61]`) }, func() *peg.Expr { return peg.Cls(false, false, "a") },
 		}
 		saved := inputs
@@ -147,7 +152,9 @@ func runC10(c *ShardCtx) {
 					return
 				}
 				g := wrap(peg.Seq(peg.Choice(peg.Seq(t1(), peg.Lit("x")), peg.Seq(peg.Lit("x"), t2())), peg.Opt(t2()), peg.Not(peg.Any())))
+				mustBuild = true
 				diff(g, xs, def, nil)
+				mustBuild = false
 			}
 		}
 		inputs = saved
@@ -168,7 +175,9 @@ func runC10(c *ShardCtx) {
 						return
 					}
 					g := wrap(peg.Seq(peg.Cls(false, ic, x, y), peg.Opt(peg.Cls(true, ic, y, x)), peg.Not(peg.Any())))
+					mustBuild = true
 					diff(g, xs, def, nil)
+					mustBuild = false
 				}
 			}
 		}
